@@ -126,8 +126,10 @@ class Batch:
                 f.write(tmpl)
             good.append(key)
         # per-package compile check first, so that one invalid output does not hide the others
-        rc, out, err = C.run(["go", "build", "./pkgs/..."], cwd=self.dir, env=C.GOENV, timeout=900)
+        rc, out, err = C.run(["go", "build", "./pkgs/..."], cwd=self.dir, env=C.GOENV, timeout=2400)
         bad = set()
+        if rc == 124:
+            raise RuntimeError("go build of the batch did not finish within its time limit (a harness limit, not a verdict on the generated code)")
         if rc != 0:
             cur = None
             for line in (out + err).split("\n"):
